@@ -127,7 +127,7 @@ pub fn specs() -> Vec<CheckSpec> {
             id: "C17",
             engine: "opsim",
             level: "exploration",
-            owns: &["format", "lookup", "listing", "read-exact"],
+            owns: &["format", "lookup", "listing", "read-exact", "content-lost"],
             runs: (2500, 120_000),
             rule: "a case = history alternating library writes (3 flavours) and records appended by the simulator's independent writer; raw bucket bytes must equal the reference encoding of the model's insert sequence, the independent decode must equal the model, and library lookups of reference-written records must equal the model. Non-trivial = >= 2 records in some bucket. 1 run in 16 is the own-writes family under the system-call scheduler (an acknowledged record must be in the bucket when the caller's next call looks)",
             assumptions: A_COMMON,
